@@ -7,7 +7,7 @@ P=${1:-3}
 : > ${REEVAL_OUT:=/tmp/reeval_all.out}
 for d in seeded/${REEVAL_ONLY:-}*/; do
   n=$(basename $d); p=${n:0:3}; extra=""
-  case $n in C04H|C03H|C03J) extra=" C16";; C10L|C10P) extra=" C06";; esac
+  case $n in C04H|C03H|C03J) extra=" C16";; C10L|C10P|C10Q) extra=" C06";; C01R) extra=" C15";; esac
   echo "/verif/$d/patch.diff $n quick $p$extra"
 done | xargs -P $P -L 1 ./tools/eval_seeded.sh >> $REEVAL_OUT 2>&1
 python3 - <<'PY'
